@@ -64,7 +64,10 @@ def p1(proj, rep):
                         break
                     if i < j:
                         swaps.append(i)
-            if ok and swaps:
+            if ok and len(swaps) == half and half > 0:
+                rep.violation('P1', construct, f'transpose{tuple(perm)} swaps ket and bra of EVERY subsystem: a full transpose, whose spectrum equals '
+                              f'that of the state - the PPT test / boundary degenerates to the PSD one', m, c)
+            elif ok and swaps:
                 rep.ok('P1', construct, f'transpose{tuple(perm)} on reshape({", ".join(shp)}): partial transpose of subsystem(s) {swaps}', m, c)
             elif ok:
                 rep.violation('P1', construct, f'transpose{tuple(perm)} is the identity: no partial transpose is taken, the PPT test degenerates to '
